@@ -127,7 +127,7 @@ func HTMLDoc(r *rand.Rand, o HTMLOpts) (doc string, toks []XTok) {
 				v := htmlChars(r, htmlValAlpha, 1+r.Intn(5))
 				eq := "="
 				if r.Intn(5) == 0 {
-					eq = Pick(r, []string{" =", "= ", " = ", "\n=\t"})
+					eq = Pick(r, []string{" =", "= ", " = ", "\n=\t", "=" + ws(), ws() + "=", ws() + "=" + ws(), "=\r", "=\f", "=\n", "\f=", "\r="})
 				}
 				emit(XTok{Type: "Attribute", Data: pre + sname + eq + v, Norm: pre + name + eq + v, Text: name, AttrVal: v, HasVal: true})
 				// an unquoted value runs up to whitespace or '>': keep a following "/>" apart
@@ -144,7 +144,7 @@ func HTMLDoc(r *rand.Rand, o HTMLOpts) (doc string, toks []XTok) {
 				}
 				eq := "="
 				if r.Intn(6) == 0 {
-					eq = Pick(r, []string{" =", "= ", " = "})
+					eq = Pick(r, []string{" =", "= ", " = ", "=" + ws(), ws() + "=", ws() + "=" + ws(), "=\r", "=\f", "=\n", "=\t", "\f=", "\r=", "\t=", "\n="})
 				}
 				emit(XTok{Type: "Attribute", Data: pre + sname + eq + q + v + q, Norm: pre + name + eq + q + v + q, Text: name, AttrVal: q + v + q, HasVal: true})
 			case 4: // whole attribute is a template construct: {{if}}name{{end}}
